@@ -198,7 +198,10 @@ def run_batch(ctx, binary, cases, tag, stats):
     ep = ctx.path("events-%s.ndjson" % tag)
     rp = ctx.path("results-%s.ndjson" % tag)
     lib.write_ndjson(cp, cases)
-    ctx.run_bin(binary, ["-in", cp, "-events", ep, "-res", rp, "-workers", "6"], timeout=2400)
+    try:
+        ctx.run_bin(binary, ["-in", cp, "-events", ep, "-res", rp, "-workers", "6"], timeout=2400)
+    except OSError as e:  # e.g. the build directory was removed by a concurrent clean-up
+        raise lib.Inconclusive("driver could not be started: %s" % e)
     results = lib.read_ndjson(rp)
     rows = lib.read_ndjson(ep)
     by_id = {c["id"]: c for c in cases}
@@ -239,6 +242,9 @@ def run_batch(ctx, binary, cases, tag, stats):
             cid = rows[s]["id"]
             case = by_id.get(cid)
             for rule in sorted(p["rules"]):
+                if rule == "ServedOnlyStoredLive":
+                    # the recording cache (harness) returned something the log cannot account for: not a verdict about the code
+                    raise lib.Inconclusive("recording cache inconsistent with its own log in history %s (event %s)" % (cid, json.dumps(ev)[:300]))
                 key = detail_key(rule, ev, rows, idx, case)
                 stats["flags"][key] = stats["flags"].get(key, 0) + 1
                 if key in stats["reported"]:
@@ -353,7 +359,7 @@ def run(ctx):
     if quick:
         rng.shuffle(bfs)
         bfs = bfs[:700]
-    nsim = 700 if quick else 12000
+    nsim = 700 if quick else 20000
     gs = ctx.tlc_must_pass(SPEC_DIRS, "Gen_EntityCache", "Gen_EntityCache_sim.cfg", timeout=1800, workers=1, deadlock=False,
                            simulate=nsim, depth=90, seed=ctx.seed, tag="gen-histories-simulate")
     sim = {}
@@ -386,7 +392,7 @@ def run(ctx):
             pool[k] = p
     keys = sorted(pool)
     rng.shuffle(keys)
-    for k in keys[:(1500 if quick else 8000)]:
+    for k in keys[:(1500 if quick else 10000)]:
         hdrs[k] = pool[k]
     hdr_list = [hdrs[k] for k in sorted(hdrs)]
     ctx.log("header strings: %d exhaustive + %d sampled (pool %d)" % (n_hdr_bfs, len(hdr_list) - n_hdr_bfs, len(pool)))
